@@ -8,6 +8,7 @@ TLC child) cannot trigger it.  Signals are delivered to the main thread only; th
   install_global()  safety net for every driver: a repeating tick; when the OUTERMOST frame that executes code
                     of the Rich tree is the same frame object at three consecutive ticks (>= 2 ticks of CPU inside
                     one call into Rich; real calls take milliseconds), Hang is raised inside that call."""
+import atexit
 import contextlib
 import signal
 import threading
@@ -59,6 +60,16 @@ def install_global(rich_root, tick=20.0):
     _G.update(root=rich_root.rstrip("/") + "/", tick=tick, last=None, count=0)
     signal.signal(signal.SIGVTALRM, _on_tick)
     signal.setitimer(signal.ITIMER_VIRTUAL, tick, tick)
+    atexit.register(disarm)      # before the interpreter restores the default dispositions: a late tick would kill the process
+
+
+def disarm():
+    """stop the tick (called at exit, and by ./check as soon as the verdict is known)"""
+    try:
+        signal.setitimer(signal.ITIMER_VIRTUAL, 0)
+        signal.signal(signal.SIGVTALRM, signal.SIG_IGN)
+    except (ValueError, OSError):
+        pass
 
 
 def _on_alarm(signum, frame):
